@@ -76,7 +76,9 @@ def dispatch_scenario(rng: random.Random, *, family=None, with_invalid=True, sto
     meta = {"family": family, "filter": "none" if f is None else "+".join(f) or "empty-composite",
             "style": style, "flexible": gen.is_flexible(jobs), "zero_dur": gen.has_zero(jobs),
             "accepted": len(accepted), "invalid": n_invalid, "complete": len(accepted) == total,
-            "filter_style": rng.choice(["callable", "enum", "str", "lazy"])}
+            "filter_style": rng.choice(["callable", "enum", "str", "lazy"]),
+            # one in eight: the instance is built from Operation objects that an earlier instance (other job structure) used
+            "reuse_ops": rng.random() < 0.125}
     return Scenario(lines, meta)
 
 
